@@ -45,16 +45,11 @@ Definition f_nt (f : fexp) : token := r_next (f_rd f).
 (* emitConsume *)
 Definition f_emit_consume (f : fexp) : fexp := f_next (f_send f [f_nt f]).
 
-Definition for_name (count_label label : text) : text :=
-  s2t "__for_" ++ count_label ++ [95] ++ label.
-
-(* the token a body token becomes in iteration i *)
+(* the token a body token becomes in iteration i: the counter becomes the iteration number;
+   block labels (the names in front of the counter) are ordinary labels and keep their names *)
 Definition subst_body (count_label : text) (line_labels : list text) (i : N) (t : token) : token :=
   match t_typ t with
-  | tokText =>
-    if text_eqb (t_val t) count_label then mkT tokNumber (dec_of_N i)
-    else if mem_text (t_val t) line_labels then mkT tokText (for_name count_label (t_val t))
-    else t
+  | tokText => if text_eqb (t_val t) count_label then mkT tokNumber (dec_of_N i) else t
   | _ => t
   end.
 Fixpoint repeat_body (n : nat) (i : N) (count_label : text) (line_labels : list text)
@@ -139,7 +134,7 @@ Definition for_step (st : fstate) (f : fexp) : option (fexp * option fstate) :=
       let labels := f_labels f in
       let cl := last labels [] in
       let ll := init_list labels in
-      Some (mkF (f_rd f) [] (f_expr f) cl ll (Some (map (for_name cl) ll)) v [] (f_depth f)
+      Some (mkF (f_rd f) [] (f_expr f) cl ll (Some ll) v [] (f_depth f)
                 (f_out f) (f_stuck f), Some FInnerLine)
     | Some _ => Some (f_send f [mkT tokError []], None)
     end
